@@ -850,6 +850,11 @@ class LibraryNode(AstNode, NamespaceMixin):
 
         if fmtdict:
             fmt_library.update(fmtdict, replace=True)
+            for name in ["C_prefix", "F_module_name"]:
+                if name in fmtdict and not isinstance(fmtdict[name], str):
+                    raise RuntimeError(
+                        "format field '{}' of the library must be a string, not {!r}"
+                        .format(name, fmtdict[name]))
 
         self.fmtdict = fmt_library
 
@@ -2029,6 +2034,16 @@ def check_dictionary_fields(ddct, names):
                 .format(key, ddct[key], ddct.get("__line__", "?")))
 
 
+def check_string_fields(ddct, names):
+    """Check fields of a YAML dictionary which must be strings.
+    """
+    for key in names:
+        if key in ddct and not isinstance(ddct[key], str):
+            raise RuntimeError(
+                "'{}' must be a string, not {!r}, around line {}"
+                .format(key, ddct[key], ddct.get("__line__", "?")))
+
+
 def clean_dictionary(ddct):
     """YAML converts some blank fields to None,
     but we want blank.
@@ -2040,6 +2055,7 @@ def clean_dictionary(ddct):
     for key in ["cxx_header", "namespace"]:
         if key in ddct and ddct[key] is None:
             ddct[key] = ""
+    check_string_fields(ddct, ["cxx_header", "namespace", "language", "library"])
 
     if "default_arg_suffix" in ddct:
         default_arg_suffix = ddct["default_arg_suffix"]
@@ -2074,6 +2090,7 @@ def clean_dictionary(ddct):
                     "instantation must be defined for each dictionary in cxx_template"
                 )
             check_dictionary_fields(dct, ["format", "options"])
+            check_string_fields(dct, ["instantiation"])
             newlst.append(
                 TemplateArgument(
                     dct["instantiation"],
@@ -2112,6 +2129,7 @@ def clean_dictionary(ddct):
                     .format(linenumber)
                 )
             check_dictionary_fields(dct, ["format", "options"])
+            check_string_fields(dct, ["decl"])
             newlst.append(
                 FortranGeneric(
                     dct["decl"],
@@ -2206,6 +2224,7 @@ def add_declarations(parent, node):
             # copy before clean to avoid changing input dict
             dct = copy.copy(subnode)
             clean_dictionary(dct)
+            check_string_fields(dct, ["decl"])
             decl = dct["decl"]
             del dct["decl"]
 
